@@ -422,7 +422,7 @@ void LogsumHmmLikelihood::computeDForward_() const
       num[kp] = logLikelihood_[iip + kp];
     }
 
-    num -= num[VectorTools::whichMax(num)];
+    num -= VectorTools::max(num);
 
     if (i < nextBrkPt)
     {
@@ -458,7 +458,7 @@ void LogsumHmmLikelihood::computeDForward_() const
     num[kp] = logLikelihood_[nbStates_ * (nbSites_ - 1) + kp];
   }
 
-  num -= num[VectorTools::whichMax(num)];
+  num -= VectorTools::max(num);
 
   partialDLogLikelihoods_.push_back(VectorTools::sumExp(num, dLogLikelihood_[nbSites_ - 1]) / VectorTools::sumExp(num));
 
@@ -517,7 +517,6 @@ void LogsumHmmLikelihood::computeD2Forward_() const
   vector<size_t>::const_iterator bpIt = breakPoints_.begin();
   if (bpIt != breakPoints_.end())
     nextBrkPt = *bpIt;
-  partialDLogLikelihoods_.clear();
 
   for (size_t i = 1; i < nbSites_; i++)
   {
@@ -532,7 +531,7 @@ void LogsumHmmLikelihood::computeD2Forward_() const
       num[kp] = logLikelihood_[iip + kp];
     }
 
-    num -= num[VectorTools::whichMax(num)];
+    num -= VectorTools::max(num);
 
     if (i < nextBrkPt)
     {
@@ -544,7 +543,8 @@ void LogsumHmmLikelihood::computeD2Forward_() const
 
         num3 = (dLogLikelihood_[i - 1] * dLogLikelihood_[i - 1] + d2LogLikelihood_[i - 1]) * trans.getCol(j);
 
-        d2LogLikelihood_[i][j] =  VectorTools::sumExp(num, num3) / den - pow(VectorTools::sumExp(num, num2) / den, 2);
+        d2LogLikelihood_[i][j] = (*d2Emissions)[j] / (*emissions)[j] - pow((*dEmissions)[j] / (*emissions)[j], 2)
+            + VectorTools::sumExp(num, num3) / den - pow(VectorTools::sumExp(num, num2) / den, 2);
       }
     }
     else // Reset markov chain:
@@ -577,7 +577,7 @@ void LogsumHmmLikelihood::computeD2Forward_() const
     num[kp] = logLikelihood_[nbStates_ * (nbSites_ - 1) + kp];
   }
 
-  num -= num[VectorTools::whichMax(num)];
+  num -= VectorTools::max(num);
 
   double den = VectorTools::sumExp(num);
 
